@@ -659,14 +659,14 @@ fn c29_leader_commit_scenario(size: u64) {
     std::mem::forget(c);
 }
 
-//@ id=C29 crate=raft tier=quick timeout=1500 mem=16 bounds="leader of a 3-node cluster: symbolic own log index 1..=5 and commit index, symbolic per-follower acknowledged indexes; ONE Ok response to a Heartbeat/Append it sent (symbolic follower, request log index <= leader's)" desc="the leader advances its commit index to i only if strictly more than half of the nodes (itself included) hold an index >= i; never beyond its own log, never backwards" kernel="Cluster::response,Cluster::commit,Cluster::commit_storage,Cluster::heartbeat_no_timer"
+//@ id=C29,C28 crate=raft tier=quick timeout=1500 mem=16 bounds="leader of a 3-node cluster: symbolic own log index 1..=5 and commit index, symbolic per-follower acknowledged indexes; ONE Ok response to a Heartbeat/Append it sent (symbolic follower, request log index <= leader's)" desc="the leader advances its commit index to i only if strictly more than half of the nodes (itself included) hold an index >= i; never beyond its own log, never backwards" kernel="Cluster::response,Cluster::commit,Cluster::commit_storage,Cluster::heartbeat_no_timer"
 #[kani::proof]
 #[kani::unwind(6)]
 fn c29_leader_commits_only_on_true_majority_3_nodes() {
     c29_leader_commit_scenario(3);
 }
 
-//@ id=C29 crate=raft tier=quick timeout=1500 mem=16 bounds="leader of a 5-node cluster, otherwise as the 3-node harness" desc="5 nodes: commit needs 3 holders" kernel="Cluster::response,Cluster::commit,Cluster::commit_storage"
+//@ id=C29,C28 crate=raft tier=quick timeout=1500 mem=16 bounds="leader of a 5-node cluster, otherwise as the 3-node harness" desc="5 nodes: commit needs 3 holders" kernel="Cluster::response,Cluster::commit,Cluster::commit_storage"
 #[kani::proof]
 #[kani::unwind(7)]
 fn c29_leader_commits_only_on_true_majority_5_nodes() {
